@@ -62,7 +62,18 @@ fn main() {
             writeln!(w, "lookup_opencl {} {} {}", n, e.opname, e.opcode).unwrap();
         }
     }
-    for n in [4096u32, 65535, 65536, 0x7fff_ffff, 0x8000_0000, 0xffff_ffff] {
+    let mut far: Vec<u32> = vec![4096u32, 65535, 65536, 0x7fff_ffff, 0x8000_0000, 0xffff_ffff];
+    // every small number (all declared ones are below 256) with every single higher bit and with several high halves:
+    // the argument is a full 32-bit word, no part of it may be dropped
+    for low in 0..256u32 {
+        for bit in 12..32 {
+            far.push(low | (1u32 << bit));
+        }
+        for hi in [1u32, 2, 0x7fff, 0x8000, 0xffff] {
+            far.push(low | (hi << 16));
+        }
+    }
+    for n in far {
         writeln!(w, "lookup_far {} {} {}", n, Gl::lookup_opcode(n).is_some(), Cl::lookup_opcode(n).is_some()).unwrap();
     }
     // 3. the 13 reflect predicates on every opcode of the table
